@@ -57,6 +57,13 @@ BACKENDS = ["mem-mem", "mem-os", "os-mem", "sub-sub"]
 # source and destination are the SAME filesystem object: the source tree lives under /src, the
 # destination tree under /dst, a bystander under /by (copy_file_internal's `src_fs is dst_fs` path)
 SAME_BACKENDS = ["same-mem", "same-os", "same-sub"]
+# READ-ONLY / composite sources (the destination is a MemoryFS or an OS directory): the source tree is put in place
+# WITHOUT the library's writers where an archive is involved (zipfile / tarfile), then opened the read-only way
+RO_SOURCES = ["rozip", "rotar", "romem", "cachedos", "multi", "mount"]
+RO_SOURCE_NAMES = {"rozip": "ReadZipFS", "rotar": "ReadTarFS", "romem": "read_only(MemoryFS)",
+                   "cachedos": "cache_directory(OSFS)", "multi": "MultiFS without a write member",
+                   "mount": "MountFS (top-level directories mounted, some read-only)"}
+RO_BACKENDS = [a + "-" + b for a in RO_SOURCES for b in ("mem", "os")]
 WALKERS = ["none", "filter", "exclude_dirs", "max_depth"]
 CONDITIONS = ["always", "newer", "older", "exists", "not_exists"]
 RELATIONS = ["empty", "disjoint", "overlapping", "conflicting"]
@@ -114,7 +121,24 @@ def backend_os(kind):
     if kind.startswith("same-"):
         return (kind == "same-os",) * 2
     a, b = kind.split("-")
-    return a == "os", b == "os"
+    return a in ("os", "cachedos"), b == "os"
+
+
+def ro_source(kind):
+    a = kind.split("-")[0]
+    return a if a in RO_SOURCES else None
+
+
+def ro_time(a, t):
+    """details.modified a read-only source of kind `a` reports for a file whose time was given as t: zip members hold
+    even seconds (DOS time, written here from the UTC broken-down time, read back as UTC by ReadZipFS), tar members
+    hold the value itself (pax header), an OS directory what os.utime stores, the others the value itself."""
+    if a == "rozip":
+        e = int(t // 1)
+        return e - e % 2
+    if a == "cachedos":
+        return os_time(t)
+    return t
 
 
 def time_pairs():
@@ -326,6 +350,16 @@ class Pair(object):
                 self.parent.writebytes("other/deep/keep.txt", b"keep")
                 f = self.parent.opendir("root")
             self.src = self.dst = f
+        elif ro_source(kind):
+            self.ro = ro_source(kind)
+            self.src = None                 # made by build_source() from the tree specification
+            self.extra = []
+            if kind.split("-")[1] == "mem":
+                self.dst = MemoryFS()
+            else:
+                d = tempfile.mkdtemp(prefix="pyfs2verif_c19_")
+                self.tmp.append(d)
+                self.dst = OSFS(d)
         elif kind == "sub-sub":
             self.parent = MemoryFS()
             self.parent.makedirs("s")
@@ -346,6 +380,93 @@ class Pair(object):
             self.src = mk(a)
             self.dst = mk(b)
 
+    def build_source(self, spec):
+        """The source tree of a read-only / composite source kind."""
+        import io
+        import tarfile
+        import zipfile
+        import fs.wrap
+        from fs.memoryfs import MemoryFS
+        from fs.mountfs import MountFS
+        from fs.multifs import MultiFS
+        from fs.osfs import OSFS
+        from fs.tarfs import ReadTarFS
+        from fs.zipfs import ReadZipFS
+        a = self.ro
+        if a == "rozip":
+            buf = io.BytesIO()
+            with zipfile.ZipFile(buf, "w") as z:
+                for p in sorted(spec):
+                    nd = spec[p]
+                    if nd[0] == "d":
+                        z.writestr(zipfile.ZipInfo(p[1:] + "/", date_time=time.gmtime(BASE)[:6]), b"")
+                    else:
+                        z.writestr(zipfile.ZipInfo(p[1:], date_time=time.gmtime(int(mt(nd[1]) // 1))[:6]),
+                                   content("S", p, nd[2]))
+            buf.seek(0)
+            self.src = ReadZipFS(buf)
+        elif a == "rotar":
+            buf = io.BytesIO()
+            with tarfile.open(fileobj=buf, mode="w", format=tarfile.PAX_FORMAT) as t:
+                for p in sorted(spec):
+                    nd = spec[p]
+                    ti = tarfile.TarInfo(p[1:])
+                    if nd[0] == "d":
+                        ti.type = tarfile.DIRTYPE
+                        ti.mtime = BASE
+                        t.addfile(ti)
+                    else:
+                        data = content("S", p, nd[2])
+                        ti.size = len(data)
+                        ti.mtime = mt(nd[1])
+                        t.addfile(ti, io.BytesIO(data))
+            buf.seek(0)
+            self.src = ReadTarFS(buf)
+        elif a == "romem":
+            m = MemoryFS()
+            self.extra.append(m)
+            build(m, spec, "S")
+            self.src = fs.wrap.read_only(m)
+        elif a == "cachedos":
+            d = tempfile.mkdtemp(prefix="pyfs2verif_c19_")
+            self.tmp.append(d)
+            o = OSFS(d)
+            self.extra.append(o)
+            build(o, spec, "S")
+            self.src = fs.wrap.cache_directory(o)
+        else:
+            tops = sorted(set(p.split("/")[1] for p in spec))
+            if a == "multi":
+                members = [MemoryFS(), MemoryFS()]
+                self.extra += members
+                for i, m in enumerate(members):
+                    build(m, dict((p, nd) for p, nd in spec.items() if tops.index(p.split("/")[1]) % 2 == i), "S")
+                multi = MultiFS(auto_close=False)
+                for i, m in enumerate(members):
+                    multi.add_fs("member%d" % i, m, write=False)
+                self.src = multi
+            else:
+                mount = MountFS(auto_close=False)
+                for i, top in enumerate(tops):
+                    if spec["/" + top][0] != "d":
+                        continue
+                    m = MemoryFS()
+                    self.extra.append(m)
+                    pre = "/" + top
+                    # same bytes as everywhere else: the content is derived from the path in the SOURCE tree
+                    sub = dict((p[len(pre):], nd) for p, nd in spec.items() if p.startswith(pre + "/"))
+                    for q in sorted(sub):
+                        if sub[q][0] == "d":
+                            m.makedir(q, recreate=True)
+                        else:
+                            m.writebytes(q, content("S", pre + q, sub[q][2]))
+                    for q in sorted(sub):
+                        if sub[q][0] == "f":
+                            m.setinfo(q, {"details": {"modified": mt(sub[q][1])}})
+                    mount.mount(pre, fs.wrap.read_only(m) if i % 2 else m)
+                build(mount, dict((p, nd) for p, nd in spec.items() if p.count("/") == 1 and nd[0] == "f"), "S")
+                self.src = mount
+
     def outside(self):
         if self.parent is None:
             return None
@@ -353,7 +474,7 @@ class Pair(object):
             self.parent.readbytes("other/deep/keep.txt"), sorted(self.parent.listdir("/"))
 
     def close(self):
-        for f in (self.src, self.dst, self.parent):
+        for f in [self.src, self.dst, self.parent] + list(getattr(self, "extra", [])):
             try:
                 if f is not None:
                     f.close()
@@ -526,12 +647,20 @@ def run_case(case):
     try:
         src_spec = dict((k, v) for k, v in case["src"].items())
         dst_spec = dict((k, v) for k, v in case["dst"].items())
-        build(pair.src, src_spec, "S")
+        ro = ro_source(case["backend"])
+        if ro:
+            pair.build_source(src_spec)
+        else:
+            build(pair.src, src_spec, "S")
         build(pair.dst, dst_spec, "D")
         src_before = snap(pair.src)
         before = snap(pair.dst)
         src_os, dst_os = backend_os(case["backend"])
         src_state = spec_state(src_spec, "S", src_os)
+        if ro:
+            # what the source must report: bytes from the specification, times at the resolution of the source kind
+            src_state = dict((p, ("d",) if nd[0] == "d" else ("f", content("S", p, nd[2]), ro_time(ro, mt(nd[1]))))
+                             for p, nd in src_spec.items())
         if same:
             union = dict(src_state)
             union.update(spec_state(dst_spec, "D", dst_os))
@@ -801,6 +930,8 @@ def signature(case, fails):
         sig += " workers>0"
     if case["backend"].startswith("same-"):
         sig += " (same filesystem object)"
+    if ro_source(case["backend"]):
+        sig += " (source: %s)" % RO_SOURCE_NAMES[ro_source(case["backend"])].split(" ")[0]
     if first in ("file-not-copied", "file-copied-against-condition", "return-value-vs-condition"):
         sig += " cond=" + case.get("cond", "always")
     if first in ("file-not-copied", "file-copied-against-condition", "return-value-vs-condition", "file-not-mirrored",
@@ -1011,6 +1142,37 @@ def explore(tier, seed):
                     cases.append(dict(base, fn="copy_file", file=q, preserve_time=pt))
                     for c in CONDITIONS:
                         cases.append(dict(base, fn="copy_file_if", file=q, cond=c, preserve_time=pt))
+    # ---- read-only and composite SOURCES: every copy / mirror entry point x preserve_time on/off x workers 0/2.
+    #      The documented rule does not depend on what the source can do with its own files: the destination carries
+    #      the source's details.modified (at the resolution the source kind reports it).
+    ro_pairs = [(hand_src, {}, "empty"), (hand_src, pairs[1][1], "overlapping")]
+    ro_pairs += [pr for pr in pairs[5:] if pr[2] in ("overlapping", "disjoint") and pr[0]][:(6 if thorough else 1)]
+    k = 0
+    for pi, (src, dst, rel) in enumerate(ro_pairs):
+        for si, a in enumerate(RO_SOURCES):
+            for b in (("mem", "os") if thorough else (("mem", "os")[(pi + si + seed) % 2],)):
+                base = dict(backend=a + "-" + b, src=src, dst=dst, relation=rel, walker="none", ro_source=True)
+                sdirs = [""] + [q for q in sorted(src) if src[q][0] == "d"]
+                ddirs = ["", "/into", "/into/new"] + [q for q in sorted(dst) if dst[q][0] == "d"]
+                sfiles = [q for q in sorted(src) if src[q][0] == "f"]
+                for pt in (False, True):
+                    for workers in (0, 2):
+                        k += 1
+                        w = "none" if (k % 3 or not thorough) else WALKERS[1 + k % 3]
+                        cases.append(dict(base, fn="copy_fs", walker=w, preserve_time=pt, workers=workers))
+                        cases.append(dict(base, fn="mirror", walker=w, copy_if_newer=False, preserve_time=pt, workers=workers))
+                        cases.append(dict(base, fn="mirror", walker=w, copy_if_newer=True, preserve_time=pt, workers=workers))
+                        sp, dp = sdirs[k % len(sdirs)], ddirs[k % len(ddirs)]
+                        cases.append(dict(base, fn="copy_dir", walker=w, src_path=sp, dst_path=dp, preserve_time=pt,
+                                          workers=workers, src_spelling=0, dst_spelling=0))
+                        for c in (CONDITIONS if thorough else [CONDITIONS[k % 5], CONDITIONS[(k + 2) % 5]]):
+                            cases.append(dict(base, fn="copy_fs_if", walker=w, cond=c, preserve_time=pt, workers=workers))
+                            cases.append(dict(base, fn="copy_dir_if", walker=w, src_path=sp, dst_path=dp, cond=c,
+                                              preserve_time=pt, workers=workers, src_spelling=0, dst_spelling=0))
+                    for q in (sfiles if thorough else [sfiles[(k + j) % len(sfiles)] for j in range(min(2, len(sfiles)))]):
+                        cases.append(dict(base, fn="copy_file", file=q, preserve_time=pt))
+                        for c in (CONDITIONS if thorough else ["always", CONDITIONS[1 + k % 4]]):
+                            cases.append(dict(base, fn="copy_file_if", file=q, cond=c, preserve_time=pt))
     return cases
 
 
@@ -1062,6 +1224,11 @@ def coverage_of(cases, failures, sigs):
             h("copy_dir path spelling (src,dst)", "%d,%d" % (c["src_spelling"], c["dst_spelling"]))
         h("preserve_time", bool(c.get("preserve_time")))
         h("workers", c.get("workers", 0))
+        if c.get("ro_source"):
+            h("read-only / composite source: kind -> destination", "%s -> %s" % (
+                RO_SOURCE_NAMES[ro_source(c["backend"])], c["backend"].split("-")[1]))
+            h("read-only / composite source: entry point, preserve_time, workers", "%s preserve_time=%s workers=%s" % (
+                c["fn"], bool(c.get("preserve_time")), c.get("workers", 0)))
         h("source_nodes", min(len(c["src"]), 12))
         if c["fn"] == "mirror" and "_second_pass_calls" in c:
             h("second_mirror_mutating_calls(copy_if_newer=%s)" % c["copy_if_newer"],
@@ -1119,6 +1286,14 @@ def coverage_of(cases, failures, sigs):
              "what os.utime stores for it (OS directory); "
              "complete destination state compared before/after; non-trivial = distinct cases with a non-empty tree",
         samples=samples, histograms=hist, failing_cases=len(failures),
+        read_only_source_cases=len([c for c in cases if c.get("ro_source")]),
+        read_only_source_rule="sources {ReadZipFS, ReadTarFS (archives written with zipfile / tarfile from the tree "
+                              "specification), read_only(MemoryFS), cache_directory(OSFS), MultiFS of two MemoryFS without a "
+                              "write member, MountFS with every top-level directory mounted (every other one read_only)} x "
+                              "destination {MemoryFS, OS directory} x {copy_fs, copy_fs_if, copy_dir, copy_dir_if, mirror "
+                              "copy_if_newer False/True} x preserve_time on/off x workers 0/2 + copy_file / copy_file_if x "
+                              "preserve_time; expectation as for every other case, with the source's details.modified at "
+                              "the resolution the source kind holds (zip: even seconds UTC, tar: the value, OS: os.utime)",
         time_table_cases=len([c for c in cases if c.get("time_table")]),
         time_table_rows=len(time_pairs()), time_table_rows_an_os_directory_cannot_hold=time_trees(True)[1],
         subsecond_generated_pairs=len(set(id(c["src"]) for c in cases if not c.get("time_table") and any(
